@@ -424,6 +424,35 @@ Definition spec_exchange (cli srv : spec) (m : msg) : msg_result :=
   | MPush hid => exchange_push (spec_global cli) (spec_global srv) (spec_lookup srv KPush hid)
   end.
 
+(* ---- the sending side under redial: session.Push / session.AsyncCall label W ----
+   After the pre-write stage the write is attempted; "write failed with statConnClosed and
+   redialForClient succeeded" jumps back to label W, which sits AFTER the pre-write stage.
+   [n] = how often that edge is taken before the final attempt, [final] = how the last
+   attempt ends.  [reenter = true] is the variant whose label sits above the stage. *)
+Inductive write_final := WOk | WRedialFail.
+
+Record send_result := mkSend {
+  sd_plan : plan;
+  sd_written : bool;
+  sd_status : Z
+}.
+
+Fixpoint reentries (reenter : bool) (pre : stage) (gc : list plugin) (n : nat) : plan :=
+  match n with
+  | O => []
+  | S k => (if reenter then [(pre, gc)] else []) ++ reentries reenter pre gc k
+  end.
+
+Definition send_flow (reenter : bool) (pre post : stage) (gc : list plugin) (n : nat)
+           (final : write_final) : send_result :=
+  if vetoes pre gc then mkSend [(pre, gc)] false (verdict_of pre gc)
+  else
+    let again := reentries reenter pre gc n in
+    match final with
+    | WOk => mkSend ((pre, gc) :: again ++ [(post, gc)]) true 0
+    | WRedialFail => mkSend ((pre, gc) :: again) false code_conn_closed
+    end.
+
 (* ---- the documented stage order (doc comments of the interfaces in plugin.go) ---- *)
 Definition seq_call_caller : list stage :=
   [PreWriteCall; PostWriteCall; PostReadReplyHeader; PreReadReplyBody; PostReadReplyBody].
